@@ -62,7 +62,9 @@ func (c *Ctx) ruleSinkAck(rule string, fn *ssa.Function, lockClass string, write
 		}
 		// no bytes for the format -> error
 		if format != nil {
-			if pol, found := hasAtom(pa, func(at Atom) bool { return at.Op == "true" && at.L.Op == "Extract" && at.L.Name == "1" && at.L.Args[0].V == ssa.Value(format) }); found && !pol {
+			if pol, found := hasAtom(pa, func(at Atom) bool {
+				return at.Op == "true" && at.L.Op == "Extract" && at.L.Name == "1" && at.L.Args[0].V == ssa.Value(format)
+			}); found && !pol {
 				nMissing++
 				if success || len(writes) > 0 {
 					r.Bad(rule, p.ShortFn(fn)+":missing-format", p.InstrPos(pa.End), "an event without bytes for the configured format is acknowledged or written")
@@ -192,14 +194,16 @@ func fileSinkWriter(t *Term) bool {
 
 func fileSinkSpecial(pa *Path) bool {
 	// /dev/null: (nil, nil) without touching anything
-	pol, found := hasAtom(pa, func(at Atom) bool { return at.Op == "eq" && at.L.Is("Field", "Path") && at.R.Is("Const", `"/dev/null"`) })
+	pol, found := hasAtom(pa, func(at Atom) bool {
+		return at.Op == "eq" && at.L.Is("Field", "Path") && at.R.Is("Const", `"/dev/null"`)
+	})
 	return found && pol
 }
 
 func runC08(c *Ctx) {
 	p, r := c.P, c.R
-	r.Explanation = "Decides only the structural premises of 'FileSink never loses, duplicates, reorders or tears an acknowledged event': f / BytesWritten / LastCreated are accessed only with FileSink.l held (pairwise lock-set discipline; open, rotate, reopen and pruneFiles are entered only with the lock held) and rotation and the write lie in one critical section; every file open of the sink is os.OpenFile with constant flags containing O_APPEND|O_CREATE|O_WRONLY and no O_TRUNC, and no os.Create / WriteFile / Truncate exists; success is acknowledged only after a write of exactly the event's bytes whose error was tested nil, the retry rewinds the same reader, and a second write only follows a failed first one; the destination is an *os.File (no buffering layer between acknowledgement and write(2)); os.Remove occurs only in pruning on elements of the sink's own glob, os.Rename only in rotation after the file was closed; pruning stops at the first file it cannot remove (so an older file never survives a newer one that was removed). Crash atomicity, ordering across files, the retention-suffix clause and partially written first attempts followed by a successful retry are file-system / runtime behaviour and are not decided."
-	r.NotDecided = []string{"crash points (whole events after a kill)", "ordering across rotated files", "retention leaving a suffix", "a partially written first attempt followed by a successful retry (duplicate prefix)", "external renames of the active file"}
+	r.Explanation = "Decides only the structural premises of 'FileSink never loses, duplicates, reorders or tears an acknowledged event': f / BytesWritten / LastCreated are accessed only with FileSink.l held (pairwise lock-set discipline; open, rotate, reopen and pruneFiles are entered only with the lock held) and rotation and the write lie in one critical section; every file open of the sink is os.OpenFile with constant flags containing O_APPEND|O_CREATE|O_WRONLY and no O_TRUNC, and no os.Create / WriteFile / Truncate exists; success is acknowledged only after a write of exactly the event's bytes whose error was tested nil, the retry rewinds the same reader, and a second write only follows a failed first one; the destination is an *os.File (no buffering layer between acknowledgement and write(2)); os.Remove occurs only in pruning on elements of the sink's own glob, os.Rename only in rotation after the file was closed; pruning stops at the first file it cannot remove (so an older file never survives a newer one that was removed). C08.partial: a retry that writes the whole event again must have looked at how many bytes the failed attempt wrote (known finding F31: it does not — a partial first write leaves a fragment). C08.reopen: the exported Reopen always runs reopen() for a real file, and a successful reopen() ends in open() after closing a handle it still held (an external rename followed by Reopen moves the sink to the file now at the configured path). Crash atomicity, ordering across files and the retention-suffix clause are file-system / runtime behaviour and are not decided."
+	r.NotDecided = []string{"crash points (whole events after a kill)", "ordering across rotated files", "retention leaving a suffix", "what the file system does with an external rename while the file is open (only the Reopen path is decided)"}
 	c.lockControls()
 	must := c.MustLocks()
 	// --- C08.retention (structural half of "what remains is a suffix"): pruning walks the sorted
@@ -208,6 +212,8 @@ func runC08(c *Ctx) {
 	if fn := c.Fn("C08.retention", PkgRoot, "FileSink", "pruneFiles"); fn != nil {
 		c.errorFlowRule("C08.retention", fn, nil, false)
 	}
+	c.rulePartialWrite()
+	c.ruleFileReopen("C08.reopen")
 	// --- C08.lock
 	n := c.guardRule("C08.lock", []string{"eventlogger.FileSink"}, nil, false)
 	if n < 3 {
@@ -333,15 +339,20 @@ func runC08(c *Ctx) {
 		r.Und("C08.names", "instance-floor", "", "os.Remove / os.Rename sites not found")
 	}
 	c.ruleRenameTarget("C08.names")
-	// the glob pattern is the sink's own: Join(Path, Sprintf(fileNamePattern(), "*"))
+	// the candidates come from the sink's own directory: a listing of fs.Path (the names are
+	// then filtered by C15.prune own-names), or a glob Join(Path, Sprintf(fileNamePattern(), "*"))
 	if pf := c.Fn("C08.names", PkgRoot, "FileSink", "pruneFiles"); pf != nil {
 		g := callsTo(pf, func(n string, cc *ssa.CallCommon) bool { return n == "path/filepath.Glob" })
-		ok := len(g) == 1
-		if ok {
+		rd := callsTo(pf, func(n string, cc *ssa.CallCommon) bool { return n == "os.ReadDir" })
+		ok := false
+		switch {
+		case len(g) == 1 && len(rd) == 0:
 			t := tb.Of(g[0].Common().Args[0])
 			ok = t.Op == "Call" && t.Name == "path/filepath.Join" && strings.Contains(t.String(), "Field[Path](Param(0:fs))") && strings.Contains(t.String(), "(*eventlogger.FileSink).fileNamePattern") && strings.Contains(t.String(), `Const("*")`)
+		case len(g) == 0 && len(rd) == 1:
+			ok = tb.Of(rd[0].Common().Args[0]).String() == "Field[Path](Param(0:fs))"
 		}
-		r.Check(ok, "C08.names", "pruneFiles:glob", p.Pos(pf.Pos()), "glob = Join(fs.Path, Sprintf(fileNamePattern(), \"*\")): the sink's own name space", "the pruning glob is not built from the sink's path and file name pattern")
+		r.Check(ok, "C08.names", "pruneFiles:listing", p.Pos(pf.Pos()), "the removal candidates are looked up in the sink's own directory (os.ReadDir(fs.Path), or a glob of fs.Path and the file name pattern)", "the pruning candidates are not taken from a listing of the sink's own directory fs.Path (or a glob built from the sink's path and file name pattern)")
 	}
 }
 
@@ -393,10 +404,14 @@ func runC13(c *Ctx) {
 				}
 				dst := pa.TermsAt(s).Of(pa.Resolve(s, s.In.(ssa.CallInstruction).Common().Args[1])).String()
 				want := "Field[f](Param(0:fs))"
-				if pol, found := hasAtom(pa, func(at Atom) bool { return at.Op == "eq" && at.L.Is("Field", "Path") && at.R.Is("Const", `"/dev/stdout"`) }); found && pol {
+				if pol, found := hasAtom(pa, func(at Atom) bool {
+					return at.Op == "eq" && at.L.Is("Field", "Path") && at.R.Is("Const", `"/dev/stdout"`)
+				}); found && pol {
 					want = "Load(Global(os.Stdout))"
 				}
-				if pol, found := hasAtom(pa, func(at Atom) bool { return at.Op == "eq" && at.L.Is("Field", "Path") && at.R.Is("Const", `"/dev/stderr"`) }); found && pol {
+				if pol, found := hasAtom(pa, func(at Atom) bool {
+					return at.Op == "eq" && at.L.Is("Field", "Path") && at.R.Is("Const", `"/dev/stderr"`)
+				}); found && pol {
 					want = "Load(Global(os.Stderr))"
 				}
 				// the retry after a failed write always goes to the file
@@ -541,7 +556,7 @@ func runC13(c *Ctx) {
 
 func runC14(c *Ctx) {
 	p, r := c.P, c.R
-	r.Explanation = "Decides, for both JSON formatters (sibling implementations that must agree): the value encoded is a struct whose JSON members are exactly created_at, event_type and payload, filled from e.CreatedAt, e.Type and e.Payload; a json.Encoder over the formatter's own buffer is used (newline-terminated output) and FormattedAs(\"json\", buf.Bytes()) happens only on the err == nil edge of Encode, an encoding error yields (nil, err); no field of the event is assigned; JSONFormatterFilter forwards its event parameter iff the predicate is nil or returned (true, nil), (nil, nil) iff false, (nil, err) on error, and Filter likewise without the nil case; Event.Formatted is accessed only inside FormattedAs (under Event.l for writing) and Format (under Event.l for reading) or through freshly allocated events. JSON round-trip faithfulness for exotic payloads is encoding/json semantics and is not decided."
+	r.Explanation = "Decides, for both JSON formatters (sibling implementations that must agree): the value encoded is a struct whose JSON members are exactly created_at, event_type and payload, filled from e.CreatedAt, e.Type and e.Payload; a json.Encoder over the formatter's own buffer is used (newline-terminated output) and FormattedAs(\"json\", buf.Bytes()) happens only on the err == nil edge of Encode, an encoding error yields (nil, err); no field of the event is assigned; JSONFormatterFilter forwards its event parameter iff the predicate is nil or returned (true, nil), (nil, nil) iff false, (nil, err) on error, and Filter likewise without the nil case; Event.Formatted is accessed only inside FormattedAs (under Event.l for writing) and Format (under Event.l for reading) or through freshly allocated events. JSON round-trip faithfulness for exotic payloads is encoding/json semantics and is not decided. C14.pred call: a stock node calls a func-typed configuration field only where it was found non-nil."
 	r.NotDecided = []string{"round-trip faithfulness of encoding/json for arbitrary payloads (A4)"}
 	c.lockControls()
 	tb := p.NewTerms(nil)
@@ -618,6 +633,18 @@ func runC14(c *Ctx) {
 		okSrc := src["created_at"] == "Field[CreatedAt](EVENT)" && src["event_type"] == "Field[Type](EVENT)" && src["payload"] == "Field[Payload](EVENT)"
 		shapes = append(shapes, strings.Join(mem, ",")+"|"+src["created_at"]+"|"+src["event_type"]+"|"+src["payload"])
 		r.Check(okMem && okSrc, "C14.struct", recv+":members", p.InstrPos(enc), "members created_at,event_type,payload from e.CreatedAt, e.Type, e.Payload", fmt.Sprintf("encoded members %v filled from %v", mem, src))
+		// "exactly the members": each member is present in EVERY line — no tag option that lets
+		// encoding/json drop it (omitempty, omitzero) or change its JSON type (string)
+		var opts []string
+		for i := 0; i < st.NumFields(); i++ {
+			parts := strings.Split(structTagGet(st.Tag(i), "json"), ",")
+			for _, o := range parts[1:] {
+				if o != "" {
+					opts = append(opts, parts[0]+":"+o)
+				}
+			}
+		}
+		r.Check(len(opts) == 0, "C14.struct", recv+":members-unconditional", p.InstrPos(enc), "no member carries a json tag option: all three are written for every event", fmt.Sprintf("json tag options %v: encoding/json drops such a member for an empty value (a nil payload gives a line with two members, no \"payload\": null) or changes its JSON type", opts))
 		// encoder over a buffer that is PRIVATE to this call (freshly allocated here): bytes stored in
 		// the event must not alias memory that is reused later (pool, field, global)
 		et := tb.Of(enc.Call.Args[0])
@@ -732,6 +759,7 @@ func runC14(c *Ctx) {
 	}
 
 	// --- C14.pred
+	c.ruleFuncFieldNil("C14.pred")
 	type predSpec struct {
 		recv     string
 		nilCase  bool
@@ -772,8 +800,12 @@ func runC14(c *Ctx) {
 				}
 				continue
 			}
-			keepPol, keepFound := hasAtom(pa, func(at Atom) bool { return at.Op == "true" && at.L.Op == "Extract" && at.L.Name == "0" && at.L.Args[0].V == ssa.Value(pred) })
-			errPol, errFound := hasAtom(pa, func(at Atom) bool { return at.Op == "eq" && at.L.Op == "Extract" && at.L.Name == "1" && at.L.Args[0].V == ssa.Value(pred) && at.R.Is("Const", "nil") })
+			keepPol, keepFound := hasAtom(pa, func(at Atom) bool {
+				return at.Op == "true" && at.L.Op == "Extract" && at.L.Name == "0" && at.L.Args[0].V == ssa.Value(pred)
+			})
+			errPol, errFound := hasAtom(pa, func(at Atom) bool {
+				return at.Op == "eq" && at.L.Op == "Extract" && at.L.Name == "1" && at.L.Args[0].V == ssa.Value(pred) && at.R.Is("Const", "nil")
+			})
 			r.TableRows++
 			switch {
 			case errFound && !errPol:
@@ -941,6 +973,7 @@ func runC15(c *Ctx) {
 		}
 	}
 	c.ruleNamePattern()
+	c.ruleRotatedName()
 	// --- C15.trigger
 	if fn := c.Fn("C15.trigger", PkgRoot, "FileSink", "rotate"); fn != nil {
 		paths := c.enum("C15.trigger", fn, PathOpts{})
@@ -1125,7 +1158,9 @@ func runC15(c *Ctx) {
 			}
 			t := pa.TermsAt(pa.LastStep()).Of(rv[0])
 			ts, tsF := hasAtom(pa, func(at Atom) bool { return at.Op == "true" && at.L.Is("Field", "TimestampOnlyOnRotate") })
-			en, enF := hasAtom(pa, func(at Atom) bool { return at.Op == "true" && at.L.Op == "Call" && at.L.Name == "(*eventlogger.FileSink).rotateEnabled" })
+			en, enF := hasAtom(pa, func(at Atom) bool {
+				return at.Op == "true" && at.L.Op == "Call" && at.L.Name == "(*eventlogger.FileSink).rotateEnabled"
+			})
 			plain := t.String() == "Field[FileName](Param(0:fs))"
 			stamped := t.Op == "Call" && t.Name == "fmt.Sprintf" && strings.Contains(t.String(), "(*eventlogger.FileSink).fileNamePattern") && strings.Contains(t.String(), "Call[(time.Time).UnixNano](Param(1:createTime))")
 			r.TableRows++
@@ -1281,7 +1316,7 @@ func runC15(c *Ctx) {
 			// a test of the candidate's own name.
 			if a.Op == "Index" {
 				raw := a.Args[0].Op == "Extract" && a.Args[0].Args[0].Is("Call", "path/filepath.Glob")
-				filtered := false
+				filtered, ownTest := false, true
 				if ia, ok := stripConv(rm[0].Common().Args[0]).(*ssa.UnOp); ok {
 					if idx, ok := ia.X.(*ssa.IndexAddr); ok {
 						var elems, leaves []ssa.Value
@@ -1298,22 +1333,52 @@ func runC15(c *Ctx) {
 										if ct.Find(func(x *Term) bool { return x.V != nil && (x.V == et.V || x.String() == et.String()) }) != nil {
 											filtered = true
 										}
+										// a candidate Join(fs.Path, entry.Name()): the test is on entry.Name()
+										if nm := listingName(et); nm != nil && ct.Find(func(x *Term) bool { return x.String() == nm.String() }) != nil {
+											filtered = true
+										}
+										// ... and the test is the sink's own name test: isRotatedName(fileNamePattern(), name)
+										if ct.Find(func(x *Term) bool {
+											return x.Is("Call", "eventlogger.isRotatedName") && len(x.Args) == 2 && x.Args[0].Is("Call", "(*eventlogger.FileSink).fileNamePattern")
+										}) == nil {
+											ownTest = false
+										}
 									}
 								}
 							}
 						}
 					}
 				}
-				r.Check(!raw && filtered, "C15.prune", "pruneFiles:own-names", p.InstrPos(rm[0]), "removal candidates are accumulated under a test of each candidate's own name", "the files removed are taken straight from the glob <base>-*<ext>, which also matches files of other sinks in the directory (\"audit-errors-<ts>.log\" for \"audit.log\"): they are counted against MaxFiles and deleted, and this sink's own rotated files can be the ones that go")
+				r.Check(!raw && filtered && ownTest, "C15.prune", "pruneFiles:own-names", p.InstrPos(rm[0]), "removal candidates are accumulated under a test of each candidate's own name", "the files removed are taken straight from the glob <base>-*<ext>, which also matches files of other sinks in the directory (\"audit-errors-<ts>.log\" for \"audit.log\"): they are counted against MaxFiles and deleted, and this sink's own rotated files can be the ones that go")
 			}
 			// loop bound: i < len(matches) - MaxFiles, i counting up from 0 by 1, and matches[i] is what is removed
-			okBound := false
+			okBound, staleBounded := false, false
 			if loop := loopOf(rm[0].Block()); loop != nil {
 				for b := range loop {
 					cond, _, _ := condOf(b)
 					if bo, ok := cond.(*ssa.BinOp); ok && bo.Op == token.LSS {
 						bt := tb.Of(bo.Y)
-						if bt.Op == "Bin" && bt.Name == "-" && bt.Args[0].Op == "Call" && bt.Args[0].Name == "builtin len" && bt.Args[1].Is("Field", "MaxFiles") {
+						isStale := func(x *Term) bool {
+							return x.Op == "Bin" && x.Name == "-" && x.Args[0].Op == "Call" && x.Args[0].Name == "builtin len" && x.Args[1].Is("Field", "MaxFiles")
+						}
+						// the count may be clamped to the number of candidates: stale = min(len - MaxFiles, len)
+						if ph, isPhi := bo.Y.(*ssa.Phi); isPhi && len(ph.Edges) == 2 {
+							for i, e := range ph.Edges {
+								et, ot := tb.Of(e), tb.Of(ph.Edges[1-i])
+								if isStale(et) && ot.Is("Call", "builtin len") && lenArg(ph.Edges[1-i]) != nil && lenArg(ph.Edges[1-i]) == et.Args[0].Args[0].V {
+									// the len edge is taken exactly when stale > len
+									pred := ph.Block().Preds[1-i]
+									for d := pred; d != nil; d = d.Idom() {
+										cc, ts, _ := condOf(d)
+										if gb, ok := cc.(*ssa.BinOp); ok && gb.Op == token.GTR && gb.X == e && lenArg(gb.Y) != nil && lenArg(gb.Y) == lenArg(ph.Edges[1-i]) && edgeDominates(d, ts, pred) {
+											bt = et
+											staleBounded = true
+										}
+									}
+								}
+							}
+						}
+						if isStale(bt) {
 							if ph, isPhi := bo.X.(*ssa.Phi); isPhi && okIdx && a.Args[1].V == ssa.Value(ph) {
 								// induction: starts at 0, steps by +1
 								init0, step1 := false, false
@@ -1334,7 +1399,59 @@ func runC15(c *Ctx) {
 				}
 			}
 			full, _ := c.fullLoop(rm[0], true)
+			// the index stays inside the list whatever MaxFiles is: the count is clamped to the number
+			// of candidates, or the index is itself tested against it, or a negative MaxFiles returned before
+			if !staleBounded && okBound {
+				if ld, ok := stripConv(rm[0].Common().Args[0]).(*ssa.UnOp); ok {
+					if ia, ok := ld.X.(*ssa.IndexAddr); ok {
+						for d := ia.Block(); d != nil; d = d.Idom() {
+							cc, ts, _ := condOf(d)
+							if gb, ok := cc.(*ssa.BinOp); ok && gb.Op == token.LSS && gb.X == ia.Index && lenArg(gb.Y) != nil && lenArg(gb.Y) == ia.X && edgeDominates(d, ts, ia.Block()) {
+								staleBounded = true
+							}
+						}
+					}
+				}
+				for _, pa := range c.enum("C15.prune", fn, PathOpts{}) {
+					reaches := false
+					for _, s := range pa.CallsOn() {
+						if stepCallName(s) == "os.Remove" {
+							reaches = true
+						}
+					}
+					if !reaches {
+						continue
+					}
+					neg, found := hasAtom(pa, func(at Atom) bool { return at.Op == "lt" && at.L.Is("Field", "MaxFiles") && at.R.Is("Const", "0") })
+					if found && !neg {
+						staleBounded = true
+					}
+				}
+			}
+			if okIdx && okBound {
+				r.Check(staleBounded, "C15.prune", "pruneFiles:index-bounded", p.InstrPos(rm[0]), "the number of files to remove never exceeds the number of candidates", "the number of files to remove, len(matches) - MaxFiles, is not bounded by the number of candidates: a negative MaxFiles makes the loop index past the end of the list, and the sink panics inside Process at the first rotation")
+			}
 			r.Check(okIdx && okBound && full, "C15.prune", "pruneFiles:oldest", p.InstrPos(rm[0]), "after sort.Strings, removes matches[i] for i < len(matches) - MaxFiles (the oldest), keeping the newest MaxFiles", "pruning does not remove exactly the len(matches)-MaxFiles lexicographically smallest (oldest) matches")
+		}
+		// configured names are not patterns: nothing derived from fs.Path / fs.FileName is handed to
+		// filepath.Glob or filepath.Match as the pattern ("logs[1]" is a directory, not a character class)
+		nGlob := 0
+		for _, f := range p.FuncsIn(PkgRoot) {
+			for _, ci := range callsTo(f, func(n string, cc *ssa.CallCommon) bool {
+				return n == "path/filepath.Glob" || n == "path/filepath.Match" || n == "path.Match"
+			}) {
+				pt := tb.Of(ci.Common().Args[0])
+				cfg := pt.Find(func(x *Term) bool {
+					return x.Is("Field", "Path") || x.Is("Field", "FileName") || x.Is("Call", "(*eventlogger.FileSink).fileNamePattern")
+				})
+				if cfg != nil {
+					nGlob++
+					r.Bad("C15.prune", p.ShortFn(f)+":configured-name-as-pattern", p.InstrPos(ci), "a glob pattern is built from the sink's configured "+cfg.String()+": a directory or file name that contains a glob metacharacter ([, *, ?, \\) matches nothing or something else, so the rotated files are never found and MaxFiles is never enforced")
+				}
+			}
+		}
+		if nGlob == 0 {
+			r.Ok("C15.prune", "pruneFiles:configured-name-as-pattern", p.Pos(fn.Pos()), "no glob or match pattern is derived from the configured path or file name")
 		}
 		// early return when MaxFiles == 0
 		okZero := false
@@ -1342,7 +1459,7 @@ func runC15(c *Ctx) {
 			if pol, found := hasAtom(pa, func(at Atom) bool { return at.Op == "eq" && at.L.Is("Field", "MaxFiles") && at.R.Is("Const", "0") }); found && pol {
 				okZero = true
 				for _, s := range pa.CallsOn() {
-					if n := stepCallName(s); n == "os.Remove" || n == "path/filepath.Glob" {
+					if n := stepCallName(s); n == "os.Remove" || n == "path/filepath.Glob" || n == "os.ReadDir" {
 						okZero = false
 					}
 				}
@@ -1533,4 +1650,14 @@ func rel(x int) string {
 		return "="
 	}
 	return ">"
+}
+
+// lenArg: v is len(x) — returns x.
+func lenArg(v ssa.Value) ssa.Value {
+	if c, ok := v.(*ssa.Call); ok {
+		if b, ok := c.Call.Value.(*ssa.Builtin); ok && b.Name() == "len" && len(c.Call.Args) == 1 {
+			return c.Call.Args[0]
+		}
+	}
+	return nil
 }
